@@ -1,12 +1,15 @@
 (* TruncationFacts.v — property C07: the declared length frames a section's content; what a truncated / damaged
    file can and cannot make the reader (Reader.read_all) yield.
-   1. C07_framing*          read_content takes exactly min(length, available) bytes, whatever they are, and its
-                            payload is a function (content_decode) of those bytes and the options only.
-   2. C07_prefix_determinism, C07_truncation_partial
+   (lemma names here; props/C07.v restates them as C07_<name>)
+   1. read_content_factored, framing, framing_any_content, iter_step_framing, iter_step_position
+                            read_content takes exactly min(length, available) bytes, whatever they are, and its
+                            payload is a function (content_decode / content_payload) of those bytes and the options only.
+   2. prefix_determinism, truncation_app, truncation_partial, truncation_without_short_read, short_read_payload
                             steps that complete inside a prefix of the data are identical on the prefix alone; the
                             records of a truncated file are a prefix of the intact ones plus AT MOST ONE short-read record.
-   3. C07_truncation_refuted the full statement ("never an altered section") is false: concrete witness.
-   4. C07_bad_length_*      non-integer / negative length: parse error at the header's line, nothing yielded;
+   3. truncation_refuted    the full statement ("never an altered section") is false: concrete witness.
+   4. bad_length_str/_neg/_missing/_loop/_beyond/_beyond_exhausts
+                            non-integer / negative length: parse error at the header's line, nothing yielded;
                             length beyond the data present: same as reading to the end of the stream. *)
 From Coq Require Import List Arith NArith ZArith Bool Strings.Byte Lia ZifyBool.
 From Coq Require Strings.String.
